@@ -51,6 +51,40 @@ pub fn check_pyramid(ctx: &Ctx, rt: &tokio::runtime::Runtime, class: &str, label
 			break;
 		}
 	}
+	// pipelines: a conversion walks the advertised coverage level by level through the stream interface - every
+	// tile it meets there lies inside the coverage, and it meets every tile the lookups found (the bounding box of
+	// the found tiles is streamed as well: its corner is usually not aligned to any internal grid)
+	if class == "pipeline" {
+		let b = bounds(&found);
+		for (z, &(x0, y0, x1, y1)) in b.iter() {
+			let lv = pyramid.get_level_bbox(*z).clone();
+			let mut boxes: Vec<TileBBox> = vec![];
+			if let Ok(bb) = TileBBox::new(*z, x0, y0, x1, y1) {
+				if bb.count_tiles() <= 4096 {
+					boxes.push(bb);
+				}
+			}
+			let walk_level = !lv.is_empty() && lv.count_tiles() <= 4096;
+			if walk_level {
+				boxes.push(lv.clone());
+			}
+			for (bi, bx) in boxes.iter().enumerate() {
+				let Ok(items) = catch(|| rt.block_on(src.stream(bx.clone()))) else { continue };
+				let got: std::collections::BTreeSet<Key> = items.iter().map(|(k, _)| *k).collect();
+				for k in &got {
+					if !pyramid.contains_coord(&TileCoord3 { x: k.1, y: k.2, z: k.0 }) {
+						ctx.violation(&format!("{class}: a returnable tile lies outside the advertised coverage"), &format!("{label}: the stream over {bx:?} delivers tile {k:?}, level box is {:?}", pyramid.get_level_bbox(k.0)), case.clone());
+						break;
+					}
+				}
+				if bi + 1 == boxes.len() && walk_level {
+					if let Some(k) = found.keys().find(|k| k.0 == *z && !got.contains(k)) {
+						ctx.violation(&format!("{class}: walking the advertised coverage misses a tile that a lookup returns"), &format!("{label}: tile {k:?} is not delivered by the stream over the advertised level box {lv:?}"), case.clone());
+					}
+				}
+			}
+		}
+	}
 	if exact {
 		let b = bounds(&found);
 		for z in 0..=31u8 {
@@ -324,6 +358,26 @@ pub fn run(ctx: Arc<Ctx>) {
 				ctx.trace(1);
 			}
 			Err(e) => ctx.violation("pipeline cannot be built", &format!("{vpl}: {e}"), json!({"vpl": vpl})),
+		}
+	}
+	// a source reaching down to the deepest levels behind zoom filters with and without either limit
+	{
+		let m31 = (1u32 << 31) - 1;
+		let mut deep = TileMap::new();
+		for k in [(31u8, m31, m31 - 1), (31, m31 - 2, m31), (30, 5, 7), (29, 1, 1), (3, 1, 1), (0, 0, 0)] {
+			deep.insert(k, format!("deep {k:?}").into_bytes());
+		}
+		let dprobe = probe_for(&deep);
+		let dfac = pipeline::factory(vec![MemSource::new("deep", deep, TileFormat::BIN, TileCompression::Uncompressed)], &work.0);
+		for tail in ["filter_zoom", "filter_zoom min=3", "filter_zoom min=30", "filter_zoom max=31", "filter_zoom min=0 max=31", "filter_zoom max=30", "filter_zoom min=31", "filter_zoom min=3 | filter_zoom min=29", "filter_bbox bbox=[-180,-85.05112877980659,180,85.05112877980659]"] {
+			let vpl = format!("{} | {tail}", m(0));
+			match pipeline::build_op(&rt, &dfac, &vpl) {
+				Ok(op) => {
+					check_pyramid(&ctx, &rt, "pipeline", &vpl, &AnySrc::Op(op), &dprobe, false, json!({"vpl": vpl, "source": "levels 0, 3, 29, 30, 31"}));
+					ctx.trace(1);
+				}
+				Err(e) => ctx.violation("pipeline cannot be built", &format!("{vpl}: {e}"), json!({"vpl": vpl})),
+			}
 		}
 	}
 	// overlays of the three sources under every assignment of stored compressions and every order (the overlay treats
